@@ -537,7 +537,7 @@ def run(ctx):
 
     # ---- seeded stream ----
     total = 300 if ctx.quick() else 5000
-    batch = 50
+    batch = 20 if ctx.quick() else 50
     done = 0
     b = 0
     while done < total:
